@@ -149,7 +149,7 @@ QUANT_FORMS = [("?", "QOpt"), ("*", "QStar"), ("+", "QPlus"), ("{0}", "QRange 0 
 
 
 def patterns_for(tier, rng):
-    pats = R.corpus(PROP) + NULLABLE_SHAPES + PREFIX_ALTERNATIONS + followpos_shapes(tier) + quantified_nullable_groups(tier) + loops_over_nullable_bodies(tier) + list(R.EVERY_CONSTRUCT)
+    pats = R.corpus(PROP) + NULLABLE_SHAPES + PREFIX_ALTERNATIONS + followpos_shapes(tier) + quantified_nullable_groups(tier) + loops_over_nullable_bodies(tier) + list(R.EVERY_CONSTRUCT) + list(R.EDGE_BLANKS)
     pats += R.small_exhaustive() if tier != "quick" else R.small_exhaustive()[::3]
     n = 120 if tier == "quick" else 2500
     for _ in range(n):
